@@ -126,6 +126,8 @@ func ruleD2(c *Ctx) {
 			c.ok(key, c.P.Pos(fn.Pos()), "reads only the insertion-order list")
 		case bucketReaders[top.Name()]:
 			c.ok(key, c.P.Pos(fn.Pos()), "hash-indexed operation ("+strings.Join(l, ", ")+")")
+		case onlyCalledByBucketReaders(c.P, top, 0):
+			c.ok(key, c.P.Pos(fn.Pos()), "private helper used only by the hash-indexed operations ("+strings.Join(l, ", ")+")")
 		default:
 			c.viol(key, c.P.Pos(fn.Pos()), fmt.Sprintf("%s produces an ordered view or iterates but reads %v: its result would depend on hash values (which differ between processes) instead of insertion order", top.Name(), l))
 		}
@@ -144,8 +146,27 @@ type htStore struct {
 }
 
 func htStores(fn *ssa.Function) []htStore {
+	return htStores1(fn, nil, 0)
+}
+
+// htStores1 collects the stores of fn; stores of private *hashtable helper
+// methods it calls (link, unlink, ...) are attributed to the calling block.
+func htStores1(fn *ssa.Function, at *ssa.BasicBlock, depth int) []htStore {
 	var out []htStore
 	eachInstr(fn, func(in ssa.Instruction) {
+		if call, ok := in.(*ssa.Call); ok && depth < 2 {
+			if cal := call.Call.StaticCallee(); cal != nil && cal.Blocks != nil && cal.Signature.Recv() != nil && qualType(cal.Signature.Recv().Type()) == "starlark.hashtable" {
+				switch cal.Name() {
+				case "insert", "delete", "clear", "grow", "init", "lookup", "checkMutable", "count":
+				default:
+					blk := call.Block()
+					if at != nil {
+						blk = at
+					}
+					out = append(out, htStores1(cal, blk, depth+1)...)
+				}
+			}
+		}
 		st, ok := in.(*ssa.Store)
 		if !ok {
 			return
@@ -206,7 +227,11 @@ func htStores(fn *ssa.Function) []htStore {
 			}
 		}
 		if what != "" {
-			out = append(out, htStore{st, what, st.Block()})
+			blk := st.Block()
+			if at != nil {
+				blk = at
+			}
+			out = append(out, htStore{st, what, blk})
 		}
 	})
 	return out
@@ -697,4 +722,28 @@ func isReturned(fn *ssa.Function, v ssa.Value) bool {
 		}
 	})
 	return found
+}
+
+func onlyCalledByBucketReaders(p *Prog, fn *ssa.Function, depth int) bool {
+	if depth > 3 || fn.Object() == nil || fn.Object().Exported() {
+		return false
+	}
+	cs := callersOf(p, fn)
+	if len(cs) == 0 {
+		return false
+	}
+	for _, g := range cs {
+		top := outermost(g)
+		if top == fn {
+			continue
+		}
+		isHT := top.Signature.Recv() != nil && qualType(top.Signature.Recv().Type()) == "starlark.hashtable"
+		if isHT && bucketReaders[top.Name()] {
+			continue
+		}
+		if !onlyCalledByBucketReaders(p, top, depth+1) {
+			return false
+		}
+	}
+	return true
 }
